@@ -86,6 +86,7 @@ Proof. reflexivity. Qed.
 (* ---- the call ---- *)
 Record dstate := mkD {
   started : bool;             (* sendRequestOnce fired: go makeRequest() *)
+  watching : bool;            (* the context watcher goroutine is alive *)
   returned : bool;            (* HTTPClient.Do has returned inside makeRequest *)
   ready : bool;               (* responseReady closed (makeRequest's deferred close ran) *)
   derr : option errv;         (* d.err, sticky *)
@@ -96,7 +97,7 @@ Record dstate := mkD {
   ctx : option ctxkind        (* context done? *)
 }.
 
-Definition init : dstate := mkD false false false None false false false 0 None.
+Definition init : dstate := mkD false false false false None false false false 0 None.
 
 (* what the environment makes the transport report *)
 Inductive do_result :=
@@ -110,7 +111,8 @@ Inductive ev :=
 | GDo (r : do_result)         (* the request goroutine: Do returns, validateResponse runs *)
 | GReady                      (* the request goroutine: its deferred close(responseReady) runs *)
 | XCtx (k : ctxkind)          (* the context is cancelled / expires *)
-| GWatch                      (* the context watcher: on a done context it records the error and closes the pipe *)
+| GWatchCtx                   (* the context watcher: the context is done: record the error, close the pipe, exit *)
+| GWatchExit                  (* the context watcher: an end of the pipe was closed: exit *)
 | XReqBodyClosed.             (* the transport closes the request body it was reading (RoundTripper contract) *)
 
 Inductive outcome :=
@@ -121,11 +123,11 @@ Inductive outcome :=
 
 (* SetError: first error wins (after wrapIfContextError); the request body reader is closed *)
 Definition set_error (s : dstate) (e : errv) : dstate :=
-  mkD (started s) (returned s) (ready s) (match derr s with Some x => Some x | None => Some (wrap_ctx e) end)
+  mkD (started s) (watching s) (returned s) (ready s) (match derr s with Some x => Some x | None => Some (wrap_ctx e) end)
       (has_resp s) true (pipe_w_closed s) (body_closes s) (ctx s).
 
 Definition start (s : dstate) : dstate :=
-  mkD true (returned s) (ready s) (derr s) (has_resp s) (pipe_r_closed s) (pipe_w_closed s) (body_closes s) (ctx s).
+  mkD true (if started s then watching s else true) (returned s) (ready s) (derr s) (has_resp s) (pipe_r_closed s) (pipe_w_closed s) (body_closes s) (ctx s).
 
 Definition step (s : dstate) (e : ev) : dstate * outcome :=
   match e with
@@ -138,7 +140,7 @@ Definition step (s : dstate) (e : ev) : dstate * outcome :=
     end
   | UCloseWrite =>
     let s := start s in
-    (mkD (started s) (returned s) (ready s) (derr s) (has_resp s) (pipe_r_closed s) true (body_closes s) (ctx s), OOk)
+    (mkD (started s) (watching s) (returned s) (ready s) (derr s) (has_resp s) (pipe_r_closed s) true (body_closes s) (ctx s), OOk)
   | URead b =>
     if negb (ready s) then (s, OBlocked)                  (* BlockUntilResponseReady *)
     else match derr s with
@@ -158,7 +160,7 @@ Definition step (s : dstate) (e : ev) : dstate * outcome :=
   | UCloseRead rest =>
     if negb (ready s) then (s, OBlocked)
     else if has_resp s
-         then (mkD (started s) (returned s) (ready s) (derr s) (has_resp s) (pipe_r_closed s) (pipe_w_closed s) (S (body_closes s)) (ctx s),
+         then (mkD (started s) (watching s) (returned s) (ready s) (derr s) (has_resp s) (pipe_r_closed s) (pipe_w_closed s) (S (body_closes s)) (ctx s),
                match rest with
                | None => OOk                               (* discard reached the end; Body.Close *)
                | Some x => OErr (wrap_done (ctx s) x)      (* discard failed; the body is closed all the same *)
@@ -167,7 +169,7 @@ Definition step (s : dstate) (e : ev) : dstate * outcome :=
   | USetError x => (set_error s x, ONone)
   | GReady =>
     if returned s && negb (ready s)
-    then (mkD (started s) (returned s) true (derr s) (has_resp s) (pipe_r_closed s) (pipe_w_closed s) (body_closes s) (ctx s), ONone)
+    then (mkD (started s) (watching s) (returned s) true (derr s) (has_resp s) (pipe_r_closed s) (pipe_w_closed s) (body_closes s) (ctx s), ONone)
     else (s, ONone)
   | GDo r =>
     if negb (started s) || returned s then (s, ONone)     (* runs once, after being started *)
@@ -176,23 +178,30 @@ Definition step (s : dstate) (e : ev) : dstate * outcome :=
         match r with
         | DoErr x => set_error s (wrap_do_error x)
         | DoResp v bidi1 =>
-          let s' := mkD (started s) (returned s) (ready s) (derr s) true (pipe_r_closed s) (pipe_w_closed s) (body_closes s) (ctx s) in
+          let s' := mkD (started s) (watching s) (returned s) (ready s) (derr s) true (pipe_r_closed s) (pipe_w_closed s) (body_closes s) (ctx s) in
           match v with
           | Some x => set_error s' x
           | None => if bidi1 then set_error s' (Coded code_unimplemented') else s'
           end
         end in
-      (mkD (started s1) true (ready s1) (derr s1) (has_resp s1) (pipe_r_closed s1) (pipe_w_closed s1) (body_closes s1) (ctx s1), ONone)
+      (mkD (started s1) (watching s1) true (ready s1) (derr s1) (has_resp s1) (pipe_r_closed s1) (pipe_w_closed s1) (body_closes s1) (ctx s1), ONone)
   | XCtx k =>
-    (mkD (started s) (returned s) (ready s) (derr s) (has_resp s) (pipe_r_closed s) (pipe_w_closed s) (body_closes s)
+    (mkD (started s) (watching s) (returned s) (ready s) (derr s) (has_resp s) (pipe_r_closed s) (pipe_w_closed s) (body_closes s)
          (match ctx s with Some x => Some x | None => Some k end), ONone)
-  | GWatch =>
-    match ctx s with
-    | Some k => (set_error s (CtxErr k), ONone)
-    | None => (s, ONone)
-    end
+  | GWatchCtx =>
+    if watching s then
+      match ctx s with
+      | Some k => let s1 := set_error s (CtxErr k) in
+                  (mkD (started s1) false (returned s1) (ready s1) (derr s1) (has_resp s1) (pipe_r_closed s1) (pipe_w_closed s1) (body_closes s1) (ctx s1), ONone)
+      | None => (s, ONone)
+      end
+    else (s, ONone)
+  | GWatchExit =>
+    if watching s && (pipe_r_closed s || pipe_w_closed s)
+    then (mkD (started s) false (returned s) (ready s) (derr s) (has_resp s) (pipe_r_closed s) (pipe_w_closed s) (body_closes s) (ctx s), ONone)
+    else (s, ONone)
   | XReqBodyClosed =>
-    (mkD (started s) (returned s) (ready s) (derr s) (has_resp s) true (pipe_w_closed s) (body_closes s) (ctx s), ONone)
+    (mkD (started s) (watching s) (returned s) (ready s) (derr s) (has_resp s) true (pipe_w_closed s) (body_closes s) (ctx s), ONone)
   end.
 
 Fixpoint run (s : dstate) (es : list ev) : dstate * list outcome :=
@@ -235,7 +244,7 @@ Lemma inv_init : inv init.
 Proof. unfold inv, init. cbn. repeat split; intro H; try discriminate; congruence. Qed.
 
 Ltac case_step s e :=
-  destruct e as [| |?b|?rest|?x|?r| |?k| |]; cbn [step];
+  destruct e as [| |?b|?rest|?x|?r| |?k| | |]; cbn [step];
   [ destruct (ctx (start s)) eqn:?C; [|destruct (pipe_r_closed (start s)) eqn:?P; [|destruct (pipe_w_closed (start s)) eqn:?PW]]
   | idtac
   | destruct (ready s) eqn:?R; cbn [negb];
@@ -248,7 +257,8 @@ Ltac case_step s e :=
       [|destruct r as [?y|?v ?b1]; [|destruct v as [?y|]; [|destruct b1]]] |]
   | destruct (returned s) eqn:?R0; cbn [andb]; [destruct (ready s) eqn:?R; cbn [negb]|]
   | idtac
-  | destruct (ctx s) eqn:?C
+  | destruct (watching s) eqn:?W; [destruct (ctx s) eqn:?C|]
+  | destruct (watching s) eqn:?W; cbn [andb]; [destruct (pipe_r_closed s) eqn:?P; cbn [orb]; [|destruct (pipe_w_closed s) eqn:?PW]|]
   | idtac ].
 
 Ltac fin :=
